@@ -2,11 +2,12 @@
 function tables contain RAISE; the transducers' Raises branch emits E, stops and releases)."""
 from harness import core
 from props import ops1_common as oc
+from props import lifecycle_common as lc
 from props import ops1_ext as ox
 
 META = {
     "technique": "TLC-enumerated fault positions (function tables with RAISE entries) of Ops1.tla transducers replayed over hot, cold and Subject drivers; escape, late-callback and release checks",
-    "level": "For every operator of Ops1.tla that takes a user function (mapper, predicate, key selector, comparer, accumulator) TLC enumerates every table in which any subset of arguments raises, together with every short timeline, and exports the expected stream: on_error at the instant of the element whose processing raised, nothing after it, source released at that instant (Grammar/Released checked in the model). Each scenario runs on the real operator with a hot test observable, a cold one and a Subject driven directly by the harness (whose emitters do not catch): an exception that propagates into the emitter or the scheduler, a missing or late on_error, a later invocation of the function, or a source left subscribed is a violation. Callbacks of operators modelled elsewhere (windows, groups, merges, time) are covered by their own modules' fault dimension.",
+    "level": "For every operator of Ops1.tla that takes a user function (mapper, predicate, key selector, comparer, accumulator) TLC enumerates every table in which any subset of arguments raises, together with every short timeline, and exports the expected stream: on_error at the instant of the element whose processing raised, nothing after it, source released at that instant (Grammar/Released checked in the model). Each scenario runs on the real operator with a hot test observable, a cold one and a Subject driven directly by the harness (whose emitters do not catch): an exception that propagates into the emitter or the scheduler, a missing or late on_error, a later invocation of the function, or a source left subscribed is a violation. For every other operator with a user function (mappers to inner observables, duration / closing selectors, conditions, factories: about 60 more), alone and in compositions of depth 2-3, the k-th invocation of a user function raises and the recorded execution is validated by TLC against the Lifecycle.tla monitor: the exception must not propagate into the emitter or scheduler, the grammar and release guards keep applying, and once time has passed after the fault no user function of the pipeline runs again (unless the pipeline contains a resubscribe-on-error operator).",
     "note": "TLC 1.8; codec of props/ops1_common.py; comparers raise on every call (code 4), accumulators on the last token",
     "ref": "DESIGN.md 6 C09",
 }
@@ -41,7 +42,13 @@ def run(tier):
                f"timeline of length 0..{n} x 38 operators with user functions; hot, cold and Subject drivers; non-trivial = the "
                "expected stream ends in the injected error (the fault is actually reached)")
     ox.replay_groups(ck, faulty, variants)
-    ck.nontrivial = sum(1 for g in faulty if any(e["k"] == "E" and e["e"] == "fn" for e in g[1][0]["out"]))
+    # operator-agnostic part: the k-th invocation of any user function of a catalogue pipeline raises
+    per_op, nd = (8, 900) if tier == "quick" else (60, 10000)
+    st = {"single": lc.validate(ck, "C09", lc.specs_single(ck.seed + 41, per_op, fault=True), "catalogue operators alone, fault"),
+          "depth2": lc.validate(ck, "C09", lc.specs_depth(ck.seed + 42, nd, 2, fault=True), "depth 2, fault"),
+          "depth3": lc.validate(ck, "C09", lc.specs_depth(ck.seed + 43, nd, 3, fault=True), "depth 3, fault")}
+    ck.note("pipeline_runs", st)
+    ck.nontrivial = sum(1 for g in faulty if any(e["k"] == "E" and e["e"] == "fn" for e in g[1][0]["out"])) + sum(v["validated"] for v in st.values())
     ck.note("scenarios_with_a_raising_entry", len(faulty))
     ck.note("operators", sorted({g[0]["op"] for g in faulty}))
     for g in [g for g in faulty if any(e["k"] == "E" for e in g[1][0]["out"])][:: max(1, len(faulty) // 5)][:5]:
@@ -50,4 +57,7 @@ def run(tier):
     return ck.finish()
 
 
-replay = ox.generic_replay
+def replay(rec):
+    if rec.get("engine") == "lifecycle":
+        return lc.replay(rec)
+    return ox.generic_replay(rec)
